@@ -6,7 +6,7 @@ HERE = os.path.dirname(os.path.dirname(os.path.abspath(__file__)))
 res = {}
 for f in sorted(glob.glob(os.path.join(HERE, "seeded", "MATRIX*.txt"))):
     for line in open(f):
-        m = re.match(r"^([mr]\d+\w*) (C\d+) rc=(\d+)", line)
+        m = re.match(r"^([mrb]\d+\w*) (C\d+) rc=(\d+)", line)
         if m:
             res.setdefault(m.group(1), {})[m.group(2)] = int(m.group(3))   # later files override
 rows = []
@@ -28,5 +28,7 @@ with open(os.path.join(HERE, "seeded", "README.md"), "w") as f:
     for r in rows:
         f.write("| " + " | ".join(x.replace("|", "/") for x in r) + " |\n")
 own = [(r[0], r[1], r[2]) for r in rows]
-missed = [r for r in own if r[2] == "-"]
+missed = [r for r in own if r[2] == "-" and not r[0].startswith("b")]
+alarms = [r for r in own if r[0].startswith("b") and r[2] != "-"]
+print("benign refactorings that raised an alarm:", [a[0] for a in alarms])
 print(len(rows), "seeds;", len(missed), "not caught by any check run:", [m[0] for m in missed])
